@@ -153,9 +153,9 @@ theorem FQ.dropLongE (w : W) (rid : Nat) : FQ w (w.dropLongE rid) := FQ.when _ _
 theorem FQ.newLock (w : W) (c : Cmd) (d : Option Bytes) : FQ w (w.newLock c d).1 :=
   ⟨⟨rfl, rfl, rfl, fun _ => rfl, ⟨[], by simp [W.newLock]⟩, id, id⟩, ⟨rfl, rfl, rfl, rfl⟩⟩
 
-@[simp] theorem Key.addLock_key (k : Key) (r : Rec) : (k.addLock r).key = k.key := by unfold Key.addLock; split <;> simp
-@[simp] theorem Key.addLock_cell (k : Key) (r : Rec) : (k.addLock r).cell = k.cell := by unfold Key.addLock; split <;> simp
-@[simp] theorem Key.addLock_locked (k : Key) (r : Rec) : (k.addLock r).locked = k.locked := by unfold Key.addLock; split <;> simp
+@[simp] theorem Key.addLock_key (k : Key) (r : Nat) (f : Rec → Rec) : (k.addLock r f).key = k.key := by unfold Key.addLock; split <;> simp
+@[simp] theorem Key.addLock_cell (k : Key) (r : Nat) (f : Rec → Rec) : (k.addLock r f).cell = k.cell := by unfold Key.addLock; split <;> simp
+@[simp] theorem Key.addLock_locked (k : Key) (r : Nat) (f : Rec → Rec) : (k.addLock r f).locked = k.locked := by unfold Key.addLock; split <;> simp
 theorem FQ.addLock (w : W) (rid : Nat) : FQ w (w.addLock rid) := FQ.modK _ _ (by simp) (by simp) (by simp)
 
 @[simp] theorem settleWait_key (k : Key) : k.settleWait.key = k.key := by unfold Key.settleWait; split <;> simp [clearWaited]
@@ -166,7 +166,7 @@ theorem FQ.updateLocked (w : W) (rid : Nat) (c : Cmd) : FQ w (w.updateLocked rid
   unfold W.updateLocked
   simp only []
   refine FQ.trans ?_ (FQ.modR _ _ _)
-  refine FQ.trans (FQ.modK w (·.setRec (updRec w.db w.k rid c)) rfl rfl rfl) ?_
+  refine FQ.trans (FQ.modR w rid (updF w.db (!(w.k.getR rid).isAof && w.k.current == some rid && w.k.locks.isEmpty) c)) ?_
   refine FQ.when _ _ _ ?_
   exact ((FQ.removeLongE _ _).trans (FQ.addExpried _ _)).trans (FQ.ref _ _)
 
